@@ -307,6 +307,60 @@ def table(tier: str, stats: Stats) -> list[Violation]:
     return list(viols.values())
 
 
+def selectors(stats: Stats) -> list[Violation]:
+    """The resource selector of a handler (docs/resources.rst): which of the cluster's resources does a declaration cover? In particular
+    the core group is a group of its own (''), not a wildcard; an unnamed version means the preferred one."""
+    from kopf._cogs.structs import references
+    viols: dict[str, Violation] = {}
+
+    def res(group: str, version: str, plural: str, kind: str, preferred: bool = True, **kw: Any) -> Any:
+        return references.Resource(group=group, version=version, plural=plural, kind=kind, singular=kind.lower(), shortcuts=frozenset(kw.get('short', ())),
+                                   categories=frozenset(kw.get('cat', ())), subresources=frozenset(), namespaced=True, preferred=preferred, verbs=frozenset({'list', 'watch', 'patch'}))
+    universe = [res('', 'v1', 'services', 'Service', short=('svc',)), res('serving.knative.dev', 'v1', 'services', 'Service', short=('ksvc',), cat=('all',)),
+                res('', 'v1', 'pods', 'Pod', cat=('all',)), res('metrics.k8s.io', 'v1', 'pods', 'PodMetrics'),
+                res('kopf.dev', 'v1', 'kopfexamples', 'KopfExample', short=('kex',)), res('kopf.dev', 'v1beta1', 'kopfexamples', 'KopfExample', preferred=False, short=('kex',)),
+                res('other.dev', 'v1', 'kopfexamples', 'KopfExample')]
+    # (how the user writes it, the (group, version, name) it stands for; None = any group / the preferred version)
+    forms: list[tuple[tuple, dict, tuple[str | None, str | None, str]]] = []
+    for name in ('services', 'pods', 'kopfexamples', 'svc', 'kex', 'Service', 'service'):
+        forms.append(((name,), {}, (None, None, name)))
+        forms.append((('v1', name), {}, ('', 'v1', name)))
+        forms.append((('', 'v1', name), {}, ('', 'v1', name)))
+        for g in ('kopf.dev', 'serving.knative.dev', 'metrics.k8s.io'):
+            forms.append(((g, name), {}, (g, None, name)))
+            forms.append(((f'{g}/v1', name), {}, (g, 'v1', name)))
+            forms.append(((g, 'v1', name), {}, (g, 'v1', name)))
+            forms.append(((g, 'v1beta1', name), {}, (g, 'v1beta1', name)))
+    for plural in ('services', 'pods', 'kopfexamples'):
+        forms.append(((), dict(group='', plural=plural), ('', None, plural)))
+        forms.append(((), dict(group='', version='v1', plural=plural), ('', 'v1', plural)))
+        forms.append(((), dict(plural=plural), (None, None, plural)))
+    for args, kwargs, (g, v, name) in forms:
+        try:
+            sel = references.Selector(*args, **kwargs)
+        except Exception as e:
+            v0 = Violation('C15', 'selector-rejected', f"Selector{args}{kwargs} is rejected: {type(e).__name__}: {e}", dict(kind='selector-rejected'), scenario='table', labels=None)  # type: ignore[arg-type]
+            viols.setdefault(v0.key(), v0)
+            continue
+        for r in universe:
+            stats.executions += 1
+            by_name = name in {r.plural, r.kind, r.singular} | set(r.shortcuts) if not kwargs else name == r.plural
+            want = (g is None or g == r.group) and ((v is None and r.preferred) or v == r.version) and by_name
+            got = bool(sel.check(r))
+            key = (repr(args), repr(sorted(kwargs.items())), r.group, r.version, r.plural)
+            stats.transitions.add(hash(key))
+            if want:
+                stats.nontrivial.add(hash(key))
+            if got != want:
+                written = ', '.join([repr(a) for a in args] + [f'{k}={val!r}' for k, val in kwargs.items()])
+                v1 = Violation('C15', 'wrong-selection', f"a handler declared for ({written}) {'covers' if got else 'does not cover'} the resource "
+                                                         f"{r.plural}.{r.version}.{r.group or '(core)'}; it stands for group={g!r} version={v!r} name={name!r}",
+                               dict(kind='wrong-selection', cls='resource-selector', direction='spurious' if got else 'missed',
+                                    core=(g == '')), scenario='table', labels=None)  # type: ignore[arg-type]
+                viols.setdefault(v1.key(), v1)
+    return list(viols.values())
+
+
 def multikey(stats: Stats) -> list[Violation]:
     """Label / annotation criteria with TWO keys (every ordered pair of criterion kinds) x every state of the two keys:
     all criteria have to hold, whatever their order in the declaration; for every family of handlers."""
@@ -567,7 +621,7 @@ def causekind_scenarios() -> list[Scenario]:
 
 def run(tier: str, seed: int) -> CheckResult:
     stats = Stats()
-    viols = table(tier, stats) + duplicates(stats) + multikey(stats)
+    viols = table(tier, stats) + duplicates(stats) + multikey(stats) + selectors(stats)
     groups = [('stealth', stealth_scenarios(tier), 1 if tier == 'quick' else 2, 40.0 if tier == 'quick' else 400.0),
               ('cause-kind', causekind_scenarios(), 0, 40.0), ('falsy-values-of-a-status-field', statusfield_scenarios(), 0, 30.0)]
     st2, v2, info, nscen = run_groups(groups, seed=seed)
@@ -601,7 +655,7 @@ def scenario_from(name: str, params: dict[str, Any]) -> Scenario:
 def reverify(v: Violation) -> bool:
     if v.scenario == 'table':
         st = Stats()
-        return any(x.key() == v.key() for x in table('thorough', st) + table('quick', st) + duplicates(st) + multikey(st))
+        return any(x.key() == v.key() for x in table('thorough', st) + table('quick', st) + duplicates(st) + multikey(st) + selectors(st))
     from kv.runner import default_reverify
     return default_reverify(v)
 
